@@ -92,6 +92,10 @@ let run_w ids npool wops_s obs_s =
         | ["De"] -> w := wstep !w WDetach; "K"
         | ["Ba"] -> w := wstep !w WBusAdd; "K"
         | ["Br"] -> w := wstep !w WBusRemove; "K"
+        | ["DeA"] -> w := wstep !w WDetachAll; "K"
+        | ["BrA"] -> w := wstep !w WBusRemoveAll; "K"
+        | ["Ri"] -> w := wstep !w WRemoveInterface; "K"
+        | ["Na"] | ["Nr"] | ["Ba2"] | ["Br2"] -> w := wstep !w WFrame; "K"
         | ["Sb"; i] -> w := wstep !w (WSetBuilder (nat_of_int (int_of_string i))); "K"
         | _ -> failwith ("bad wop " ^ tok) in
       Printf.sprintf "%s:%s:%s:%s:%d:%s" flag (zs (world_can_id !w)) (zs !w.w_id) (zs !w.w_prio)
